@@ -224,7 +224,8 @@ fn inline_image(lexer: &mut Lexer, resolve: &impl Resolve) -> Result<Arc<ImageXO
 struct OpBuilder {
     last: Point,
     start: Point,
-    compability_section: bool,
+    // nesting depth of BX ... EX
+    compability_section: u32,
     ops: Vec<Op>
 }
 impl OpBuilder {
@@ -232,7 +233,7 @@ impl OpBuilder {
         OpBuilder {
             last: Point { x: 0., y: 0. },
             start: Point { x: 0., y: 0. },
-            compability_section: false,
+            compability_section: 0,
             ops: Vec::new()
         }
     }
@@ -302,7 +303,7 @@ impl OpBuilder {
                 properties: None
             }),
             "BT"  => push(Op::BeginText),
-            "BX"  => self.compability_section = true,
+            "BX"  => self.compability_section = self.compability_section.saturating_add(1),
             "c"   => {
                 points!(args, c1, c2, p);
                 push(Op::CurveTo { c1, c2, p });
@@ -339,7 +340,7 @@ impl OpBuilder {
             "EI"  => bail!("Parse Error. Unexpected 'EI'"),
             "EMC" => push(Op::EndMarkedContent),
             "ET"  => push(Op::EndText),
-            "EX"  => self.compability_section = false,
+            "EX"  => self.compability_section = self.compability_section.saturating_sub(1),
             "f" |
             "F"   => push(Op::Fill { winding: NonZero }),
             "f*"  => push(Op::Fill { winding: EvenOdd }),
@@ -501,7 +502,7 @@ impl OpBuilder {
                 push(Op::TextNewline);
                 push(Op::TextDraw { text: string(&mut args)? });
             }
-            o if !self.compability_section => {
+            o if self.compability_section == 0 => {
                 bail!("invalid operator {}", o)
             },
             _ => {}
